@@ -2,6 +2,7 @@ mod fnlevel;
 mod gen;
 mod hist;
 mod jsonx;
+mod kv;
 mod obs;
 mod prng;
 mod store;
@@ -24,6 +25,16 @@ fn main() {
         Some("hist") => cmd_hist(&args),
         Some("gen") => cmd_gen(&args),
         Some("fn") => cmd_fn(&args),
+        Some("kv") => {
+            let out = arg(&args, "--out").expect("--out");
+            let tmp = arg(&args, "--tmp").expect("--tmp");
+            let seed: u64 = arg(&args, "--seed").and_then(|s| s.parse().ok()).unwrap_or(1);
+            let seqs: usize = arg(&args, "--seqs").and_then(|s| s.parse().ok()).unwrap_or(20);
+            let ops: usize = arg(&args, "--ops").and_then(|s| s.parse().ok()).unwrap_or(60);
+            let shards: usize = arg(&args, "--shards").and_then(|s| s.parse().ok()).unwrap_or(8);
+            let n = kv::run_kv(&out, &tmp, seed, seqs, ops, shards);
+            println!("{}", json!({"driver": "kv", "events": n}));
+        }
         _ => {
             eprintln!("usage: mvh hist|gen ...");
             std::process::exit(2);
